@@ -1,8 +1,8 @@
 CONSTANTS
-  NK = 6
+  NK = 8
   NV = 1
-  MaxLen = 8
-  Reads <- ReadsPoint
+  MaxLen = 12
+  Reads <- ReadsNone
   Lims <- Lims0
   Grow = 0
   Quiet = FALSE
